@@ -143,7 +143,8 @@ Lockstep ==
                 /\ verdicts' = verdicts \cup {<<sid, n>> : n \in vs}
                 /\ stats' = [stats EXCEPT !.explained = @ + Len(r.lines),
                                           !.calls = IF Kind(S) = "call" THEN @ + 1 ELSE @]
-        ELSE /\ PrintT("TV|DIVERGED|" \o ToJson([id |-> sid, l |-> l, got |-> Line(l), want |-> r.lines]))
+        ELSE /\ PrintT("TV|DIVERGED|" \o ToJson([id |-> sid, l |-> l, got |-> Line(l),
+                                                  want |-> IF Admissible(S, c) THEN r.lines ELSE <<"inadmissible draw">>]))
              /\ mechOK' = FALSE
              /\ verdicts' = verdicts \cup {<<sid, "C05">>}
              /\ stats' = [stats EXCEPT !.diverged = @ + 1]
